@@ -198,6 +198,14 @@ func attribute(tl gen.Tools, outs []gen.Outcome, probs []gen.Problem) ([]failure
 				// reply types of one base name
 				names = []string{"same-base-name-types"}
 			}
+			// a name that collides with another name of the same definition cannot fail "on its
+			// own" (legalising the partner removes the collision): it is the root cause
+			for _, n := range names {
+				if strings.HasSuffix(n, "=dup-go-name") {
+					names = []string{n}
+					break
+				}
+			}
 			sort.Strings(names)
 			if len(names) > 4 {
 				names = append(names[:4], "…")
